@@ -130,7 +130,7 @@ structure Obj (δ ν : Type) where
   isWired : Bool
 
 /-- `TemplateData.wire()`: do nothing when already wired; otherwise append the nodes and set the
-    flag.  (After fix F14: a wiring pass that raises leaves the object unwired with no nodes; the
+    flag.  (After fix F14c13 (repo commit 6bf9769): a wiring pass that raises leaves the object unwired with no nodes; the
     pinned code set the flag first and kept the half-built node list, so that a second call
     returned silently.) -/
 def Obj.wire {δ ν : Type} (wireFn : δ → Except Err (List ν)) (o : Obj δ ν) : Obj δ ν × Except Err Unit :=
